@@ -150,6 +150,13 @@ def judge_text(sh, backend, top, what, src, case, mech_fn, extra_steps=None, ncy
   if dr["undriven"]:
     W("read-or-output-variable-without-driver", variables=dr["undriven"][:6],
       all_dual_form=all(dual(p_, n_) for p_, n_ in dr["undriven"]), text=text[-3000:]); ok = False
+  # an ELEMENT of an array of packed structs that is read although no driver covers it, while the leaf forms X__f of the same
+  # array are driven on their own (by something that does not read X): the whole / field forms of a struct wire are not linked
+  # (an element the design itself leaves undriven - its leaf form is fed from the packed form - is not judged)
+  for (p_, n_, el_) in dr.get("elem_undriven", []):
+    leafs = [v for v in byp[p_].vars if v != n_ and de(v).startswith(de(n_) + "__")]
+    if leafs and any(n_ not in rs for v in leafs for rs in dr["driver_reads"].get((p_, v), [])):
+      W("read-or-output-variable-without-driver", variables=[(p_, n_, list(el_))], all_dual_form=True, element_level=True, text=text[-3000:]); ok = False; break
   if not ok:
     return False
   try:
